@@ -1,20 +1,23 @@
 """C14 — notifications obey threshold / interval / send-once; every incident is announced."""
 import notifiergen as G
 
-CORR = "corr:notifier.notifyModule gating (Notifier.notify_module)"
+CORR = "corr:notifier.notifyModule gating + refresh (Notifier.notify_module / on_refresh)"
 
 
 def run(chk, failed):
-    chk.rule = ("same probe and model as C13, clock-directed: mostly one or two groups, clock steps from {0, 1 ns, interval-1 s, interval s "
-                "-1 ns, interval s, interval s +1 ns, interval+1 s, 30 s}, every module configuration of the product threshold{1,2,3} x "
-                "send-interval{0,60} x send-once x send-close walked by case index; the C14 oracle (threshold, lists, interval and send-once "
-                "within an incident / quiet period, every incident announced) is evaluated on every call log of the implementation; "
-                "non-trivial = at least two incidents of one (cluster, group); distinct by the case line")
-    G.check_body(chk, failed, "C14", G.oracle_c14, ["clock", "clock", "clock", "groups"], 40000, 800000, CORR)
+    chk.rule = ("same probe and model as C13 (responses, group-list refreshes through the real processConsumerList, refresh cycles "
+                "through the real sendClusterRequest/processClusterList), clock-directed: mostly one or two groups, clock steps from {0, "
+                "1 ns, interval-1 s, interval s -1 ns, interval s, interval s +1 ns, interval+1 s, 30 s}, every module configuration of "
+                "the product threshold{1,2,3} x send-interval{0,60} x send-once x send-close walked by case index; refreshes inside open "
+                "incidents (the remembered notify times must survive every refresh that still lists the group), dropping and re-listing "
+                "groups; the C14 oracle (threshold, lists, interval and send-once within an incident / quiet period, every incident "
+                "announced - computed from the history alone) is evaluated on every call log of the implementation; non-trivial = at "
+                "least two incidents of one (cluster, group); distinct by the case line")
+    G.check_body(chk, failed, "C14", G.oracle_c14, ["clock", "clock", "clock", "groups"], 30000, 600000, CORR)
     chk.assumptions += [
         "clock readings are int64 Unix nanoseconds set through VerifSetClock; time.Time.Sub's saturation and the int64 wrap of send-interval * 1e9 are modelled, the interval theorem assumes 0 <= send-interval * 1e9 < 2^63",
-        "interval and send-once are counted within an incident (and within a quiet period for thresholds <= OK): the remembered notify times are forgotten when an incident opens (fix F3) and for a module that sent a close notification",
-        "same registration / single in-flight response / distinct module name assumptions as C13",
+        "interval and send-once are counted within an incident (and within a quiet period for thresholds <= OK): the remembered notify times are forgotten when an incident opens (fix F3), for a module that sent a close notification, and when the group leaves the notifier's list (its record is deleted; a re-listed group starts blank)",
+        "same one-step-at-a-time / known-cluster / distinct module name assumptions as C13",
     ]
 
 
